@@ -1,6 +1,7 @@
 package props
 
 import (
+	"fmt"
 	"math/big"
 
 	vmcommon "github.com/ElrondNetwork/elrond-vm-common"
@@ -520,6 +521,46 @@ func Scenarios() []*Scenario {
 	multi("multi/cross-snd-f", false, true, "f", func(s *Scn) node.Call { return s.Xfer("M", s.A, s.Other, "f") })
 	multi("multi/cross-snd-fgsnt", false, true, "fgsnt", func(s *Scn) node.Call { return s.Xfer("M", s.A, s.Other, "fgsnt") })
 	multi("multi/cross-snd-call", false, true, "sn", func(s *Scn) node.Call { return s.Xfer("M", s.A, s.KOther, "sn", att...) })
+	// refund legs (return-after-error): the destination is frozen when the message arrives, the
+	// tokens come back to a sender that still holds part of what it sent
+	refund := func(name string, own string, fn, pattern string) {
+		sc := &Scenario{Name: name, Dest: true}
+		sc.Exec = func(s *Scn, g uint64) *node.Leg {
+			s.U.Issue(s.Other, s.F1, big.NewInt(1))
+			s.U.Freeze(s.Other, s.F1)
+			c := s.Xfer(fn, s.A, s.Other, pattern)
+			c.Gas = gen.BigGas
+			if l := s.U.N.Exec(c); !l.OK || len(s.U.N.Pool) == 0 {
+				return l
+			}
+			if l := s.U.N.Deliver(len(s.U.N.Pool) - 1); l == nil || l.OK || len(s.U.N.Pool) == 0 {
+				return l // not refused: nothing to refund
+			}
+			m := s.U.N.Pool[len(s.U.N.Pool)-1]
+			m.Gas = g
+			return s.U.N.Deliver(len(s.U.N.Pool) - 1)
+		}
+		L = append(L, sc)
+	}
+	refund("transfer/refund", "", "T", "f")
+	refund("multi/refund-fs", "", "M", "fs")
+	refund("multi/refund-sf", "", "M", "sf")
+	// asynchronous calls that lock gas for their callback (GasLocked travels in its own field of the
+	// emitted transfer; it is no part of what the call consumes, forwards or keeps)
+	for _, lk := range []uint64{1, 5000, 1 << 40} {
+		lk := lk
+		tag := fmt.Sprintf("-async-locked-%d", lk)
+		locked := func(c node.Call) node.Call { c.CallType = vmcommon.AsynchronousCall; c.GasLocked = lk; return c }
+		multi("multi/cross-snd-call"+tag, false, true, "sn", func(s *Scn) node.Call { return locked(s.Xfer("M", s.A, s.KOther, "sn", att...)) })
+		multi("multi/same-call"+tag, false, false, "fs", func(s *Scn) node.Call { return locked(s.Xfer("M", s.A, s.KSame, "fs", att...)) })
+		nft("nftxfer/cross-snd-call"+tag, false, true, func(s *Scn) node.Call { return locked(s.Xfer("N", s.A, s.KOther, "S", att...)) })
+		nft("nftxfer/same-call"+tag, false, false, func(s *Scn) node.Call { return locked(s.Xfer("N", s.A, s.KSame, "n", att...)) })
+		xf("transfer/cross-snd-call"+tag, false, "ESDTTransfer", func(s *Scn) node.Call { return locked(s.Xfer("T", s.A, s.KOther, "f", att...)) })
+		xf("transfer/same-call"+tag, false, "ESDTTransfer", func(s *Scn) node.Call { return locked(s.Xfer("T", s.A, s.KSame, "f", att...)) })
+		add(&Scenario{Name: "claim/same-async-locked" + tag, Func: FClaim, OwnField: "ClaimDeveloperRewards", Mult: 1, Exec: func(s *Scn, g uint64) *node.Leg {
+			return s.U.N.Exec(node.Call{Func: FClaim, Caller: s.A, Recipient: s.KSame, Gas: g, CallType: vmcommon.AsynchronousCall, GasLocked: lk})
+		}})
+	}
 	multi("multi/cross-dst-f", true, true, "f", func(s *Scn) node.Call { return s.Xfer("M", s.A, s.Other, "f") })
 	multi("multi/cross-dst-fsn", true, true, "fsn", func(s *Scn) node.Call { return s.Xfer("M", s.A, s.Other, "fsn") })
 	multi("multi/cross-dst-call", true, true, "fs", func(s *Scn) node.Call { return s.Xfer("M", s.A, s.KOther, "fs", att...) })
